@@ -63,6 +63,9 @@ struct Th {
     prio: u64,
     /// resource signalled when this thread finishes (join)
     done_res: ResId,
+    /// simulated process kill: freeze this thread at its n-th next scheduling point
+    crash_in: Option<u64>,
+    crashed: bool,
 }
 
 #[derive(Clone, Debug, PartialEq, Eq)]
@@ -354,6 +357,30 @@ impl Kernel {
             }
             inner.threads[me].state = new_state;
             inner.threads[me].wake = Wake::Signal;
+            if !finished
+                && let Some(n) = inner.threads[me].crash_in
+            {
+                if n <= 1 {
+                    // The simulated kill: this thread never runs again. No destructor of
+                    // its frames runs, exactly as for a killed process.
+                    inner.threads[me].crash_in = None;
+                    inner.threads[me].crashed = true;
+                    inner.threads[me].state = TState::Blocked { res: new_res(), deadline: None, what: "crashed (simulated kill)" };
+                    *inner.counters.entry("fault.crash".to_string()).or_insert(0) += 1;
+                    Self::log(&mut inner, || "CRASH (simulated kill)".to_string());
+                    let done_res = inner.threads[me].done_res;
+                    for t in inner.threads.iter_mut() {
+                        if let TState::Blocked { res: r, .. } = t.state
+                            && r == done_res
+                        {
+                            t.state = TState::Runnable;
+                            t.wake = Wake::Signal;
+                        }
+                    }
+                } else {
+                    inner.threads[me].crash_in = Some(n - 1);
+                }
+            }
             if inner.steps > inner.limits.max_steps {
                 self.end(&mut inner, Outcome::StepLimit);
                 drop(inner);
@@ -520,6 +547,8 @@ impl Kernel {
                 wake: Wake::Signal,
                 prio,
                 done_res,
+                crash_in: None,
+                crashed: false,
             });
             Self::log(&mut inner, || format!("spawn T{tid} '{name}'"));
         }
@@ -562,6 +591,21 @@ impl Kernel {
         self.signal(done_res);
         CUR.with(|c| *c.borrow_mut() = None);
         self.reschedule(me, TState::Finished);
+    }
+
+    pub fn is_crashed(&self, tid: Tid) -> bool {
+        self.lock().threads[tid].crashed
+    }
+
+    /// Freeze the calling thread at its `n`-th scheduling point from now (simulated kill).
+    pub fn crash_after(&self, tid: Tid, n: u64) {
+        self.lock().threads[tid].crash_in = Some(n.max(1));
+    }
+
+    /// Scheduling points this thread has passed are not tracked per thread; callers count
+    /// with `steps_of_run` deltas in single-actor phases or use a dry run.
+    pub fn steps_so_far(&self) -> u64 {
+        self.lock().steps
     }
 
     pub fn is_finished(&self, tid: Tid) -> bool {
@@ -756,6 +800,22 @@ pub fn buggify(site: &'static str, num: u32, den: u32) -> bool {
         Some((k, _)) => k.buggify(site, num, den),
         None => false,
     }
+}
+
+/// Simulated process kill of the calling thread at its `n`-th scheduling point from now.
+pub fn crash_self_after(n: u64) {
+    if let Some((k, me)) = current() {
+        k.crash_after(me, n);
+    }
+}
+
+/// Disarm a pending [`crash_self_after`].
+pub fn crash_disarm() -> bool {
+    if let Some((k, me)) = current() {
+        let mut inner = k.lock();
+        return inner.threads[me].crash_in.take().is_some();
+    }
+    false
 }
 
 pub fn now_ns() -> u64 {
